@@ -291,11 +291,57 @@ def c_decoder_align(tier):
     return dict(results=out, functions=["litex.soc.integration.soc.SoCRegion.decoder (alignment test, all origins)"],
                 samples=[dict(function="SoCRegion.decoder", origin="symbolic int >= 0", sizes="2**e and two non-power-of-two sizes rounding up to it")])
 
+def c_reserved_locations(kind, k):
+    """SoCIRQHandler / SoCCSRHandler constructors with k reserved entries whose NUMBERS are symbolic (names concrete and different): whatever the
+    constructor's internal shape, when it returns (and the handler is enabled) every recorded location is inside [0, n_locs), no two names share
+    a number, and a later add()/alloc() of a new client never receives a reserved number.  No source rewriting: independent of loop structure."""
+    t0 = time.time(); names = [f"rsv{i}" for i in range(k)]
+    def build(vals):
+        if kind == "irq": h = S.SoCIRQHandler(n_irqs=32, reserved_irqs=dict(zip(names, vals)))
+        else: h = S.SoCCSRHandler(data_width=32, address_width=14, alignment=32, paging=0x800, ordering="big", reserved_csrs=dict(zip(names, vals)))
+        return h
+    def run(ctx):
+        vals = [SymInt(z3.Int(f"n{i}")) for i in range(k)]
+        lg = logging.getLogger("SoCIRQHandler" if kind == "irq" else "SoCCSRHandler"); lg.disabled = True; logging.getLogger("SoCLocHandler").disabled = True
+        try:
+            h = build(vals)
+        except S.SoCError:
+            elab.restore_stderr(); return
+        elab.restore_stderr(); h.logger.disabled = True
+        N = h.n_locs
+        locs = dict(h.locs)
+        ctx.check("post.reserved-entries-recorded-or-refused", z3.BoolVal(set(locs) == set(names)))
+        for nm_, v in locs.items(): ctx.check(f"post.in-range[{nm_}]", z3.And(toint(v) >= 0, toint(v) < N))
+        for a_, b_ in itertools.combinations(sorted(locs), 2): ctx.check(f"post.different-numbers[{a_},{b_}]", toint(locs[a_]) != toint(locs[b_]))
+        if kind == "irq": h.enable()
+        try:
+            h.add("client")                                   # automatic allocation for a new client
+        except S.SoCError:
+            elab.restore_stderr(); return
+        got = h.locs["client"]
+        for nm_, v in locs.items(): ctx.check(f"post.new-client-number-differs-from[{nm_}]", toint(got) != toint(v))
+        ctx.check("post.new-client-in-range", z3.And(toint(got) >= 0, toint(got) < N))
+    paths, obl = explore(run, max_paths=4000)
+    elab.restore_stderr()
+    def replay(m):
+        vs = []
+        for i in range(k):
+            d_ = [m[x] for x in m.decls() if str(x) == f"n{i}"]; vs.append(d_[0].as_long() if d_ else 0)
+        try: h = build(vs)
+        except S.SoCError: elab.restore_stderr(); return dict(reproduced=False, numbers=vs, outcome="refused")
+        elab.restore_stderr(); vals = list(h.locs.values())
+        bad = len(set(vals)) != len(vals) or any(not (0 <= v < h.n_locs) for v in vals)
+        return dict(reproduced=bad, numbers=vs, recorded=dict(h.locs), n_locs=h.n_locs, call=f"{'SoCIRQHandler' if kind == 'irq' else 'SoCCSRHandler'}(reserved={dict(zip(names, vs))})")
+    out = _results(f"{'SoCIRQHandler' if kind == 'irq' else 'SoCCSRHandler'}.__init__[{k} reserved, symbolic numbers]", paths, obl, t0, replay)
+    return dict(results=out, functions=[f"litex.soc.integration.soc.{'SoCIRQHandler' if kind == 'irq' else 'SoCCSRHandler'}.__init__ (reserved entries; executed unmodified)", "litex.soc.integration.soc.SoCLocHandler.add/alloc"],
+                samples=[dict(function="handler constructor", reserved=k, numbers="symbolic ints")])
+
 def cases(tier):
     return [Case("check_regions_overlap", c_overlap_contract), Case("add_region", c_add_region), Case("add_region(io_check)", c_add_region, True),
             Case("SoCLocHandler.add(fixed)", c_lochandler, 32, "fixed"), Case("SoCLocHandler.add(alloc)", c_lochandler, 8, "alloc"), Case("SoCLocHandler.add(reuse)", c_lochandler, 32, "reuse"),
             Case("alloc_region(bounded)", c_alloc_bounded), Case("SoCRegion.size_pow2(bounded)", c_region_pow2), Case("ConstraintManager(bounded)", c_platform_bounded),
-            Case("SoCRegion.decoder", c_decoders, tier), Case("SoCRegion.decoder.align", c_decoder_align, tier)]
+            Case("SoCRegion.decoder", c_decoders, tier), Case("SoCRegion.decoder.align", c_decoder_align, tier)] + \
+           [Case(f"{kind}-handler.reserved({k})", c_reserved_locations, kind, k) for kind in ("irq", "csr") for k in (0, 1, 2)]
 
 ASSUMPTIONS = ["Python semantics assumed by the E3 encoding: ints are mathematical; dict iteration is insertion order; logging/colorer/str.format have no effect on results; no aliasing between the symbolic records handed in",
                "SoCRegion.size_pow2 >= size is assumed in add_region's proof; the constructor's own relation is proved in C13_alloc_proofs.py (SoCRegion.__init__(proof))",
